@@ -91,7 +91,7 @@ def collect(out):
     return res
 
 
-NOISE = re.compile(r"^\s*(D_[A-Z_]+\(|DPRINTF|ASSERT|REQUIRE|libast_print_|libast_fatal|libast_dprintf|\}|\{|else\b|break;|return;|#)")
+NOISE = re.compile(r"^\s*(D_[A-Z_]+\(|DPRINTF|ASSERT|REQUIRE|libast_print_|libast_fatal|libast_dprintf|\}|\{|else\b|break;|return;|#|SPIF_DEALLOC\(self\);|self = \(spif_[a-z_]+_t\) NULL;|SPIF_OBJ_SHOW_NULL)")
 
 
 def report(pid, cov, files, fp):
